@@ -547,6 +547,7 @@ func runSimCheck(id, tier string, seed uint64, p propInfo, scratch string, start
 				}
 				if !confirmed {
 					fmt.Fprintf(os.Stderr, "falcosim: violation %s of the no-network-address phase did not reproduce — not reported\n", k)
+					unconfirmed++
 					continue
 				}
 				v := f.Violation
@@ -693,6 +694,10 @@ func writeEvidence(id, tier string, seed uint64, level string, cov map[string]an
 	tmp := filepath.Join(dir, id+".json.tmp")
 	os.WriteFile(tmp, b, 0o644)
 	os.Rename(tmp, filepath.Join(dir, id+".json"))
+	// the last run of each tier is kept beside it (the file above holds
+	// whichever tier ran last)
+	os.MkdirAll(filepath.Join(dir, "by-tier"), 0o755)
+	os.WriteFile(filepath.Join(dir, "by-tier", id+"-"+tier+".json"), b, 0o644)
 }
 
 func runReplay(path string) int {
